@@ -25,6 +25,38 @@ for _n in ('SIGSEGV', 'SIGBUS', 'SIGFPE', 'SIGILL', 'SIGABRT'):
         CRASH_SIGNALS[int(getattr(signal, _n))] = _n
 
 
+def enter_private_dir():
+    """Every execution gets an empty working / temporary directory of its own (below the run's directory), so that
+    state a library leaves in the file system cannot travel between the isolated clients, the pristine-process
+    replays and the simulated world — and is seen by the ambient-state oracle when it appears."""
+    import tempfile
+    root = os.environ.get('KNEESIM_RUNDIR')
+    if not root or not os.path.isdir(root):
+        return
+    d = tempfile.mkdtemp(prefix='x', dir=root)
+    os.environ['TMPDIR'] = d
+    os.environ['HOME'] = d
+    tempfile.tempdir = None
+    os.chdir(d)
+
+
+def with_rundir(fn, args=(), timeout=300):
+    """call() inside a fresh run directory under /tmp that is removed afterwards."""
+    import shutil
+    import tempfile
+    root = tempfile.mkdtemp(prefix='kneesim-run-', dir='/tmp')
+    old = os.environ.get('KNEESIM_RUNDIR')
+    os.environ['KNEESIM_RUNDIR'] = root
+    try:
+        return call(fn, args, timeout)
+    finally:
+        if old is None:
+            os.environ.pop('KNEESIM_RUNDIR', None)
+        else:
+            os.environ['KNEESIM_RUNDIR'] = old
+        shutil.rmtree(root, ignore_errors=True)
+
+
 def call(fn, args=(), timeout=300):
     """Run fn(*args) in a forked child; return its (picklable) result.  Raises ChildFailed if the
     child crashed, timed out or raised."""
@@ -38,6 +70,7 @@ def call(fn, args=(), timeout=300):
             os.close(r)
             signal.signal(signal.SIGALRM, signal.SIG_DFL)
             signal.alarm(int(timeout))   # wall-clock backstop only: the child dies, the parent reports a harness error
+            enter_private_dir()
             try:
                 res = ('ok', fn(*args))
             except BaseException:
